@@ -42,6 +42,37 @@ def analyse(src, fin):
     return obs
 
 
+def grammar_forms(thorough):
+    """every combination of one or two unary operators with 0-2 casts at each level on a right-hand side, with
+    the rewriting the documentation gives for it (bounded-exhaustive, complements the hand-picked list)"""
+    casts = ['', '(int)', '(int)(long)']
+    out = []
+
+    def fn(body, loop):
+        if loop:
+            return 'int f(int x,int y,int z){ while (z < 9) { %s z = z + y; } }' % body
+        return 'int f(int x,int y,int z){ %s }' % body
+    single = {'-': 'y = x * 3;', '+': 'y = x;', '!': 'y = 0;', 'sizeof': 'y = 0;'}
+    for loop in ((False, True) if thorough else (False,)):
+        for c1 in casts:
+            for c2 in casts:
+                for op, twin in single.items():
+                    e = f'sizeof({c2}x)' if op == 'sizeof' else f'{op}{c2}x'
+                    out.append((fn(f'y = {c1}{e};', loop), fn(twin, loop), f'grammar:{op}'))
+                # nested: only ! and sizeof may sit on top of another unary operator
+                for outer in ('!', 'sizeof'):
+                    for inner in ('-', '+', '!', 'sizeof'):
+                        for c3 in (casts if thorough else casts[:2]):
+                            ie = f'sizeof({c3}x)' if inner == 'sizeof' else f'{inner}{c3}x'
+                            e = f'sizeof({c2}{ie})' if outer == 'sizeof' else f'!{c2}{ie}'
+                            out.append((fn(f'y = {c1}{e};', loop), fn('y = 0;', loop), f'grammar:{outer}-of-{inner}'))
+            for inc, twin in (('x++', 'y = x; x = x + 1;'), ('++x', 'x = x + 1; y = x;'),
+                              ('x--', 'y = x; x = x - 1;'), ('--x', 'x = x - 1; y = x;')):
+                out.append((fn(f'y = {c1}{inc};', loop), fn(twin, loop), 'grammar:incdec'))
+                out.append((fn(f'{c1}{inc};', loop), fn(twin.replace('y = x;', '').strip(), loop), 'grammar:incdec-stmt'))
+    return out
+
+
 def run(ctx):
     rng = ctx.rng
     n = ctx.budget(90, 3000)
@@ -65,7 +96,7 @@ def run(ctx):
         ('int f(int x,int y){ while (x < 9) { y = (int)x; x++; } }', 'int f(int x,int y){ while (x < 9) { y = x; x = x + 1; } }', 'cast-whole-rhs-id'),
     ]
     cases = []
-    for a, b, form in extra:
+    for a, b, form in extra + grammar_forms(ctx.tier == 'thorough'):
         cases.append((a, b, None, form))
     for i in range(n):
         g = Gen(rng, Opts(sugar=True, max_bin=5, max_stmts=3, whole_rhs_cast=(i % 2 == 0)))
